@@ -19,21 +19,23 @@ from vlib.e2e_runner import Result
 STORES = ["rock", "ufs", "aufs", "diskd"]
 # rock slot-size=4096: ~4 KB of payload per slot, the first slot also carries swap metadata and the HTTP header
 SIZES = st.one_of(
-    st.sampled_from([0, 1, 100, 3000, 3600, 3700, 3800, 3900, 4000, 4056, 4096, 4200, 7600, 7800, 8000, 8192, 12000, 12288,
+    st.sampled_from([4200, 0, 1, 100, 3000, 3600, 3700, 3800, 3900, 4000, 4056, 4096, 4200, 7600, 7800, 8000, 8192, 12000, 12288,
                      16384, 20000, 33000, 65536, 70000]),
     st.integers(0, 9000), st.integers(0, 80000))
 
 
 def strategy(tp):
+    # A process restart costs seconds, an operation milliseconds: histories are long (8-24 operations on six URLs), and the
+    # first alternative of every choice is a useful one because Hypothesis starts each worker with the minimal example.
     op = st.fixed_dictionaries({
-        "op": st.sampled_from(["get", "get", "get", "refresh", "refresh", "purge"]),
-        "u": st.integers(0, 3),
+        "op": st.sampled_from(["refresh", "get", "get", "refresh", "purge", "get"]),
+        "u": st.integers(0, 5),
         "size": SIZES,
         "dt": st.sampled_from([0, 0, 0, 1, 2, 61, 3600]),
     })
     return st.fixed_dictionaries({
-        "store": st.sampled_from(STORES),
-        "ops": st.lists(op, min_size=1, max_size=9),
+        "store": st.sampled_from(["rock", "ufs", "aufs", "diskd", "rock", "ufs", "rock", "aufs"]),
+        "ops": st.lists(op, min_size=8, max_size=24),
     })
 
 
@@ -49,6 +51,10 @@ def execute(env, sc):
     r = Result()
     t0 = time.time()   # harness trace only, never part of the verdict
     store = sc["store"]
+    if env.duplicate_minimal_example():
+        r.label("minimal-example-left-to-worker-0")
+        r.sub_evaluations = 0
+        return r
     r.label("store:" + store)
     try:
         sq = env.new_squid(ds.STORE_DIRS[store])
